@@ -4030,5 +4030,6 @@ fn exact_div<N>(n: N, rhs: N) -> Option<N>
 where
     N: std::ops::Div<Output = N> + std::ops::Rem<Output = N> + std::cmp::PartialEq + Copy + Default,
 {
-    (n % rhs == N::default()).then_some(n / rhs)
+    // a divisor of 0 (e.g. a channel count of 0) divides nothing exactly
+    (rhs != N::default() && n % rhs == N::default()).then(|| n / rhs)
 }
